@@ -1,6 +1,8 @@
 package main
 
 import (
+	"fmt"
+	"go/constant"
 	"go/token"
 	"strings"
 
@@ -186,6 +188,8 @@ func runC04(w *World, r *Report) {
 
 	c04Orchestration(w, r)
 	c04Builder(w, r)
+	c04KindRouting(w, r)
+	r.Min("R8", 10)
 	r.Min("R1", 6)
 	r.Min("R2", 1)
 	r.Min("R3", 4)
@@ -442,5 +446,194 @@ func c04Builder(w *World, r *Report) {
 			}
 		}
 		r.Check(okAll && n >= 1, "R7", "ConnectionEdge.equal/condition-part-of-identity", eq.Pos(), "two edges are duplicates only if their conditions are equal as well (an edge to the same target under another condition must be kept)")
+	}
+}
+
+// c04KindRouting: a flow of kind K (user / system-start / system-end) is stored
+// in, and read back from, the node list of the same kind on every path:
+// AddFlow (existing node and new node), getSystemFlow and getFlow agree.
+func c04KindRouting(w *World, r *Report) {
+	const pkgITypes = "lunar/engine/streams/internal-types"
+	want := map[int64]string{}
+	for name, field := range map[string]string{"UserFlow": "userFlows", "SystemFlowStart": "systemFlowStart", "SystemFlowEnd": "systemFlowEnd"} {
+		c := w.constOf(pkgITypes, name)
+		if c == nil {
+			r.Undec("R8", "const/"+name, token.NoPos, "flow kind constant not found")
+			return
+		}
+		n, _ := constant.Int64Val(c)
+		want[n] = field
+	}
+	kindOf := func(b *ssa.BasicBlock, subject VP) (int64, bool) {
+		for _, c := range CondsOf(b) {
+			if !c.Pol {
+				continue
+			}
+			if rel, ok := NormCond(c); ok && rel.Op == "==" {
+				for _, s := range [][2]ssa.Value{{rel.L, rel.R}, {rel.R, rel.L}} {
+					if k, isK := peel(s[1]).(*ssa.Const); isK && k.Value != nil && subject(s[0]) {
+						if n, exact := constant.Int64Val(constant.ToInt(k.Value)); exact {
+							return n, true
+						}
+					}
+				}
+			}
+		}
+		return 0, false
+	}
+	// which FilterNode field does add<X> append to
+	fieldOfAdder := func(m *ssa.Function) string {
+		name := ""
+		n := 0
+		Instrs(m, func(in ssa.Instruction) {
+			if st, ok := in.(*ssa.Store); ok {
+				if fa, ok := st.Addr.(*ssa.FieldAddr); ok {
+					if _, sn := namedOf(fa.X.Type()); sn == "FilterNode" {
+						n++
+						c, isApp := peel(st.Val).(*ssa.Call)
+						if isApp && len(c.Call.Args) == 2 && Path(c.Call.Args[0]) == strings.TrimPrefix(Path(fa), "&") && Derives(c.Call.Args[1], func(x ssa.Value) bool { return Path(x) == "param:flow" }) {
+							name = fieldName(fa.X.Type(), fa.Field)
+						}
+					}
+				}
+			}
+		})
+		if n != 1 {
+			return ""
+		}
+		return name
+	}
+	af := w.Fn(pkgFilter, "FilterTree.AddFlow")
+	if af == nil {
+		r.Undec("R8", "AddFlow", token.NoPos, "function not found")
+		return
+	}
+	isGetType := func(v ssa.Value) bool { return strings.HasSuffix(Path(v), "GetType(param:flow)") }
+	nAdd := 0
+	for _, c := range CallsIn(af, false, "FilterNode).addUserFlow", "FilterNode).addSystemFlowStart", "FilterNode).addSystemFlowEnd") {
+		callee := c.Common().StaticCallee()
+		k, ok := kindOf(c.Block(), isGetType)
+		fld := ""
+		if callee != nil {
+			fld = fieldOfAdder(origin(callee))
+		}
+		nAdd++
+		r.Check(ok && fld != "" && fld == want[k], "R8", fmt.Sprintf("AddFlow/existing-node/kind-%d", k), posOf(c), "a flow of kind %d added to an existing node is appended to %q (want %q)", k, fld, want[k])
+	}
+	if nAdd != 3 {
+		r.Undec("R8", "AddFlow/existing-node", af.Pos(), "expected three add calls, found %d", nAdd)
+	}
+	nLit := 0
+	Instrs(af, func(in ssa.Instruction) {
+		a, ok := in.(*ssa.Alloc)
+		if !ok || structOf(a.Type()) != "FilterNode" {
+			return
+		}
+		k, okK := kindOf(a.Block(), isGetType)
+		var holds []string
+		for _, f := range []string{"userFlows", "systemFlowStart", "systemFlowEnd"} {
+			if v := litField(a, f); v != nil && Derives(v, func(x ssa.Value) bool { return Path(x) == "param:flow" }) {
+				holds = append(holds, f)
+			}
+		}
+		nLit++
+		r.Check(okK && len(holds) == 1 && holds[0] == want[k], "R8", fmt.Sprintf("AddFlow/new-node/kind-%d", k), a.Pos(), "a new node for a flow of kind %d holds the flow in %v (want [%s])", k, holds, want[k])
+	})
+	if nLit != 3 {
+		r.Undec("R8", "AddFlow/new-node", af.Pos(), "expected three FilterNode literals, found %d", nLit)
+	}
+	// read side
+	if gs := w.Fn(pkgFilter, "FilterNode.getSystemFlow"); gs == nil {
+		r.Undec("R8", "getSystemFlow", token.NoPos, "function not found")
+	} else {
+		n := 0
+		Instrs(gs, func(in ssa.Instruction) {
+			u, ok := in.(*ssa.UnOp)
+			if !ok || u.Op != token.MUL {
+				return
+			}
+			fa, ok := u.X.(*ssa.FieldAddr)
+			if !ok {
+				return
+			}
+			if _, sn := namedOf(fa.X.Type()); sn != "FilterNode" {
+				return
+			}
+			fld := fieldName(fa.X.Type(), fa.Field)
+			if fld == "filterRequirements" {
+				return
+			}
+			k, okK := kindOf(u.Block(), func(v ssa.Value) bool { return Path(v) == "param:flowType" })
+			n++
+			r.Check(okK && fld == want[k] && k != 0, "R8", "getSystemFlow/reads/"+fld, u.Pos(), "kind %d is read from %q (want %q)", k, fld, want[k])
+		})
+		if n != 2 {
+			r.Undec("R8", "getSystemFlow/reads", gs.Pos(), "expected two list reads, found %d", n)
+		}
+	}
+	if gf := w.Fn(pkgFilter, "FilterNode.getFlow"); gf == nil {
+		r.Undec("R8", "getFlow", token.NoPos, "function not found")
+	} else {
+		ok := true
+		detail := []string{}
+		slot := map[string]ssa.Value{}
+		Instrs(gf, func(in ssa.Instruction) {
+			st, isSt := in.(*ssa.Store)
+			if !isSt {
+				return
+			}
+			inner, ok1 := st.Addr.(*ssa.FieldAddr)
+			if !ok1 || fieldName(inner.X.Type(), inner.Field) != "Flow" {
+				return
+			}
+			outer, ok2 := inner.X.(*ssa.FieldAddr)
+			if !ok2 {
+				return
+			}
+			if _, sn := namedOf(outer.X.Type()); sn == "FilterResult" {
+				slot[fieldName(outer.X.Type(), outer.Field)] = st.Val
+			}
+		})
+		for res, src := range map[string]string{"UserFlow": "getUserFlow(", "SystemFlowStart": "getSystemFlow(", "SystemFlowEnd": "getSystemFlow("} {
+			fl := slot[res]
+			p := Path(fl)
+			good := fl != nil && strings.Contains(p, src) && strings.HasSuffix(p, "#0")
+			if good && res != "UserFlow" {
+				c, isC := peel(fl).(*ssa.Extract)
+				good = isC
+				if isC {
+					call := c.Tuple.(*ssa.Call)
+					kc, isK := peel(call.Call.Args[len(call.Call.Args)-1]).(*ssa.Const)
+					if isK && kc.Value != nil {
+						n, _ := constant.Int64Val(constant.ToInt(kc.Value))
+						good = want[n] == map[string]string{"SystemFlowStart": "systemFlowStart", "SystemFlowEnd": "systemFlowEnd"}[res]
+					} else {
+						good = false
+					}
+				}
+			}
+			if !good {
+				ok = false
+				detail = append(detail, res+" <- "+trunc(p, 60))
+			}
+		}
+		r.Check(ok, "R8", "getFlow/result-slots", gf.Pos(), "FilterResult.UserFlow/SystemFlowStart/SystemFlowEnd are filled from the lists of the same kind %v", detail)
+	}
+	if gu := w.Fn(pkgFilter, "FilterNode.getUserFlow"); gu != nil {
+		okU := false
+		Instrs(gu, func(in ssa.Instruction) {
+			if rg, ok := in.(*ssa.Range); ok && Path(rg.X) == "param:node.userFlows" {
+				okU = true
+			}
+		})
+		if !okU {
+			// rangeindex form
+			Instrs(gu, func(in ssa.Instruction) {
+				if ia, ok := in.(*ssa.IndexAddr); ok && Path(ia.X) == "param:node.userFlows" {
+					okU = true
+				}
+			})
+		}
+		r.Check(okU, "R8", "getUserFlow/reads/userFlows", gu.Pos(), "user flows are selected from node.userFlows")
 	}
 }
